@@ -114,12 +114,17 @@ def main(argv: List[str]) -> int:
     ap.add_argument("--replay")
     ap.add_argument("--all", action="store_true")
     ap.add_argument("--regress", action="store_true")
+    ap.add_argument("--mutants", action="store_true", help="behaviour-preserving mutators: every check must stay silent")
+    ap.add_argument("--only", default="", help="comma separated mutator names for --mutants")
     ap.add_argument("--no-write", action="store_true")
     ap.add_argument("-j", type=int, default=16)
     a = ap.parse_args(argv)
     if a.regress:
         from .regress import run_regress
         return run_regress(a.props, a.root, a.j)
+    if a.mutants:
+        from .mutate import run_mutants
+        return run_mutants(a.props, a.root, a.j, [x for x in a.only.split(",") if x])
     props = ALL if a.all else a.props
     if not props:
         ap.print_help()
